@@ -135,7 +135,14 @@ fn history_engines(tier: Tier, budget: f64) -> (BfsStats, Vec<Found>, Vec<String
 
 pub fn c06(tier: Tier) -> i32 {
     let mut run = Run::new("C06", tier, "model_checking", "payflow");
-    let r = crate::payflow::explore(tier, false, tier.pick(45.0, 1500.0));
+    let mut r = crate::payflow::explore(tier, false, tier.pick(45.0, 1500.0));
+    // the approval layer: what is registered as approved is what the operator approved
+    let a = crate::approvers::explore(tier, tier.pick(15.0, 300.0));
+    let bc = r.stats.bounded_complete && a.stats.bounded_complete;
+    merge_stats(&mut r.stats, &a.stats);
+    r.stats.bounded_complete = bc;
+    r.found.extend(a.found);
+    r.models.extend(a.models);
     let others = add_found(&mut run, "C06", &r.found);
     run.assume("two channels, approved hash H1 (keysend of 100_000 sat) and unapproved hash H2; in-flight value defined on the two current commitments of each channel with max (outgoing) / min (incoming) of the two views; routing-fee allowance 222_000 msat (regtest default)");
     run.assume("histories of <= 4 (6) letters; commitment numbers <= 3 per side");
@@ -260,6 +267,8 @@ pub fn replay(v: &Value) {
                 Some(crate::payflow::replay_ops)
             } else if model.starts_with("nodevel") {
                 Some(crate::nodevel::replay_ops)
+            } else if model.starts_with("approvers") {
+                Some(crate::approvers::replay_ops)
             } else {
                 None
             };
